@@ -23,19 +23,24 @@ RULE = ("spea2: exhaustive 1-objective/2-objective tiny populations (n<=4, value
         "branch (archive exact / too small / too large); nsga3: populations n<=14 (grid, continuous, "
         "single point, collinear, chain, two-level, one cut front with mixed-sign non-unit weights, axis-hugging "
         "rows at the 1e6 ASF weight, fronts scaled to the 1e-6 intercept guard, shared objective prefixes "
-        "for the log-time sort), k in 1..n, both nd back-ends, generator reference "
+        "for the log-time sort; four populations of 180-220 individuals in 46-70 small fronts with niche counts "
+        "beyond 127), called as selNSGA3(pop,k,refs) / (…,nd) / (…,nd=,return_memory=True) / through the class, "
+        "k in 1..n, both nd back-ends, generator reference "
         "points M=nobj, p in 1..8, scaling none or 1/2, plain and with memory over 3 consecutive calls; "
-        "niching/associate also driven directly on synthetic inputs; refs: every M in 1..6 x p in 1..8 x "
-        "scaling in {none,1/2,1/4}; qsel: random arrays with duplicates. Non-trivial = distinct case that "
+        "niching/associate/find_intercepts also driven directly on synthetic inputs; refs: every M in 1..6 x p in 1..8 x "
+        "scaling in {none,1/2,1/4,3/4,1/3}; qsel: random arrays with duplicates. Non-trivial = distinct case that "
         "is not a k=n / single-individual call")
 EXHAUSTIVE = {"quick": False, "thorough": False}
 TIME_BUDGET = {"quick": 60, "thorough": 900}
+MIN_CASES = 2000
+CASE_TIMEOUT = 60
 TRUSTED = ["pareto_fronts are taken from the real sortNondominated/sortLogNondominated (verified by C04); "
            "the front-priority oracle recomputes the ranks by brute force",
-           "numpy.linalg.solve (LAPACK) is not modelled: its answer (or LinAlgError) is the model's `solve` "
-           "parameter and is transported from the implementation; everything around it (ideal/worst point, "
-           "find_extreme_points, the fallbacks and acceptance test of find_intercepts, the normalisation) is "
-           "modelled and compared; the oracle rebuilds the minimised objective matrix from the individuals",
+           "numpy.linalg.solve (LAPACK) is not modelled: it is the model's `solve` parameter; in the selNSGA3 "
+           "streams its answer comes from the HARNESS's own call on the harness's own matrix (the oracle's "
+           "normalisation is the harness's own numpy code: ideal/worst point, ASF extreme points, hyperplane "
+           "intercepts with the fallbacks; no DEAP function is called), in the find_intercepts stream from the "
+           "implementation's call (incl. answers perturbed by the harness to miss the contract A.x = b)",
            "numpy elementwise arithmetic/argmin/unique/flatnonzero semantics; Lean Float = IEEE binary64 "
            "(association compared with relative tolerance 1e-9)",
            "SPEA2 density values fits[i] are read from the running implementation (frame locals); the "
@@ -132,17 +137,17 @@ def dominates(a, b):
 
 
 def brute_ranks(wv):
-    """Pareto rank of each individual by peeling (independent of DEAP)."""
+    """Pareto depth of each individual (independent of DEAP): 0 for the non-dominated ones, otherwise one
+    more than the largest depth among its dominators (= the round in which peeling removes it)."""
     n = len(wv)
-    rank = [None] * n
-    rest = set(range(n))
-    r = 0
-    while rest:
-        front = [i for i in rest if not any(dominates(wv[j], wv[i]) for j in rest)]
-        for i in front:
-            rank[i] = r
-        rest -= set(front)
-        r += 1
+    order = sorted(range(n), key=lambda i: tuple(wv[i]), reverse=True)   # dominators come first
+    rank = [0] * n
+    for a, i in enumerate(order):
+        r = 0
+        for j in order[:a]:
+            if rank[j] >= r and dominates(wv[j], wv[i]):
+                r = rank[j] + 1
+        rank[i] = r
     return rank
 
 
@@ -195,7 +200,8 @@ class NpShuffle(object):
 
 class Capture(object):
     """Wraps the helper functions selNSGA3 calls (module globals of emo) to see its intermediate data."""
-    NAMES = ("sortNondominated", "sortLogNondominated", "associate_to_niche", "niching")
+    NAMES = ("sortNondominated", "sortLogNondominated", "associate_to_niche", "niching",
+             "find_extreme_points", "find_intercepts")
 
     def __init__(self):
         self.calls = []
@@ -231,19 +237,19 @@ class Capture(object):
             if cap.cur is not None:
                 cap.cur.update(n_sel=list(sel), n_counts1=numpy.array(niche_counts))
             return sel
-        self.saved_solve = numpy.linalg.solve
-
-        def solve(A, b):
-            try:
-                x = self.saved_solve(A, b)
-            except numpy.linalg.LinAlgError:
-                if cap.cur is not None:
-                    cap.cur["solve"] = "sing"
-                raise
+        def fext(fitnesses, best_point, extreme_points=None):
+            res = self.saved["find_extreme_points"](fitnesses, best_point, extreme_points)
             if cap.cur is not None:
-                cap.cur["solve"] = numpy.array(x)
-            return x
-        numpy.linalg.solve = solve
+                cap.cur["extreme"] = numpy.array(res)
+            return res
+
+        def ficpt(extreme_points, best_point, current_worst, front_worst):
+            res = self.saved["find_intercepts"](extreme_points, best_point, current_worst, front_worst)
+            if cap.cur is not None:
+                cap.cur["worst"] = numpy.array(current_worst).reshape(-1)
+            return res
+        emo.find_extreme_points = fext
+        emo.find_intercepts = ficpt
         emo.sortNondominated = wrap_sort("sortNondominated")
         emo.sortLogNondominated = wrap_sort("sortLogNondominated")
         emo.associate_to_niche = assoc
@@ -253,7 +259,6 @@ class Capture(object):
     def __exit__(self, *a):
         for n, f in self.saved.items():
             setattr(emo, n, f)
-        numpy.linalg.solve = self.saved_solve
         return False
 
 
@@ -311,25 +316,53 @@ def balance_oracle(niche_of, counts_total, last_members, selected_set):
     return None
 
 
-_FIND_EXTREME = emo.find_extreme_points
-_FIND_INTERCEPTS = emo.find_intercepts
+def own_extreme_points(rows, best):
+    """Deb & Jain, extreme point of axis j: the row minimising the achievement scalarising function
+    max_m (f_m - z_m) / w_m with w = 1 on the axis and 1e-6 elsewhere (first row on ties)."""
+    ft = rows - best
+    M = len(best)
+    ext = []
+    for j in range(M):
+        wts = numpy.full(M, 1e6)
+        wts[j] = 1.0
+        ext.append(rows[int(numpy.argmin(numpy.max(ft * wts, axis=1)))])
+    return numpy.array(ext)
+
+
+def own_intercepts(extreme, best, worst, front_worst):
+    """intercepts of the hyperplane through the extreme points (measured from the ideal point, returned as
+    absolute coordinates); degenerate cases fall back on the worst points.  The linear system is solved
+    HERE, by the harness, on the harness's own matrix.  Returns (intercepts, solve answer or 'sing', branch)."""
+    A = extreme - best
+    b = numpy.ones(len(best))
+    try:
+        x = numpy.linalg.solve(A, b)
+    except numpy.linalg.LinAlgError:
+        return numpy.array(worst, dtype=float), "sing", "sing"
+    if numpy.any(x == 0):
+        return numpy.array(front_worst, dtype=float), x, "frontworst/zero"
+    ic = 1.0 / x
+    if not numpy.allclose(numpy.dot(A, x), b):
+        return numpy.array(front_worst, dtype=float), x, "frontworst/residual"
+    if numpy.any(ic <= 1e-6) or numpy.any(ic + best > worst):
+        return numpy.array(front_worst, dtype=float), x, "frontworst/guard"
+    return ic + best, x, "hyperplane"
 
 
 def independent_normalisation(F, mem):
-    """Ideal point and intercepts derived from the minimised objective matrix F that the harness built
-    itself from the individuals (never from data seen inside selNSGA3).  The LAPACK part uses DEAP's
-    own find_extreme_points / find_intercepts on that matrix.  mem = None (plain selNSGA3) or the
-    harness's own copy of the memory {best, worst, extreme}; returns (best, intercepts, new mem)."""
+    """Ideal point, extreme points and intercepts computed by the harness's own numpy code from the
+    minimised objective matrix F that the harness built itself from the individuals (nothing here comes
+    from inside selNSGA3, and no DEAP function is called).  mem = None (plain selNSGA3) or the harness's
+    own copy of the memory {best, worst, extreme}; returns (best, intercepts, new mem, solve answer, branch)."""
     if mem is not None:
         best = numpy.min(numpy.concatenate((F, mem["best"].reshape(1, -1)), axis=0), axis=0)
         worst = numpy.max(numpy.concatenate((F, mem["worst"].reshape(1, -1)), axis=0), axis=0)
-        ext0 = mem["extreme"]
+        rows = F if mem["extreme"] is None else numpy.concatenate((F, mem["extreme"]), axis=0)
     else:
-        best, worst, ext0 = numpy.min(F, axis=0), numpy.max(F, axis=0), None
-    extreme = _FIND_EXTREME(F, best, ext0)
-    front_worst = numpy.max(F, axis=0)
-    intercepts = _FIND_INTERCEPTS(extreme, best, worst, front_worst)
-    return best, intercepts, {"best": best, "worst": worst, "extreme": extreme}
+        best, worst, rows = numpy.min(F, axis=0), numpy.max(F, axis=0), F
+    extreme = own_extreme_points(rows, best)
+    intercepts, sol, branch = own_intercepts(extreme, best, worst, numpy.max(F, axis=0))
+    return best, intercepts, {"best": best, "worst": worst, "extreme": extreme}, sol, branch
 
 
 def min_matrix(pop, wv, cap):
@@ -339,12 +372,12 @@ def min_matrix(pop, wv, cap):
     return flat, numpy.array([[-x for x in wv[p]] for p in flat], dtype=float)
 
 
-def nsga3_call_oracle(pop, wv, sel, k, cap, refs, mem, flat, F):
+def nsga3_call_oracle(pop, wv, sel, k, cap, refs, flat, F, indep):
     """wv: weighted values computed by the harness from the case description.  Returns
-    (message, positions, near_tie, new independent memory)."""
+    (message, positions, near_tie)."""
     msg, pos = common_oracle(pop, sel, k, "selNSGA3")
     if msg:
-        return msg, pos, False, mem
+        return msg, pos, False
     rank = brute_ranks(wv)
     selset = set(pos)
     worst_sel = max(rank[p] for p in pos)
@@ -352,8 +385,8 @@ def nsga3_call_oracle(pop, wv, sel, k, cap, refs, mem, flat, F):
         if q not in selset and rank[q] < worst_sel:
             x = next(p for p in pos if rank[p] > rank[q])
             return ("individual %d of front %d is left out although individual %d of front %d is selected"
-                    % (q, rank[q], x, rank[x])), pos, False, mem
-    best, intercepts, mem2 = independent_normalisation(F, mem)
+                    % (q, rank[q], x, rank[x])), pos, False
+    best, intercepts = indep[0], indep[1]
     # the normalisation must never divide by a non-positive number (line 627: intercepts - best + eps),
     # neither with the implementation's own ideal point / intercepts nor with the rebuilt ones
     for what, b_, i_ in (("implementation's", numpy.array(cap["best"]).reshape(-1), numpy.array(cap["intercepts"]).reshape(-1)),
@@ -361,14 +394,14 @@ def nsga3_call_oracle(pop, wv, sel, k, cap, refs, mem, flat, F):
         den = i_ - b_ + EPS
         if not numpy.all(den > 0):
             return ("normalisation: %s denominators intercepts - ideal + eps = %s are not positive (ideal %s, "
-                    "intercepts %s)" % (what, den.tolist(), b_.tolist(), i_.tolist())), pos, False, mem2
+                    "intercepts %s)" % (what, den.tolist(), b_.tolist(), i_.tolist())), pos, False
     # (a) the association the implementation used, judged in the independently normalised space
     if len(cap["niches"]) != len(flat):
-        return "association covers %d individuals, %d were sorted" % (len(cap["niches"]), len(flat)), pos, False, mem2
+        return "association covers %d individuals, %d were sorted" % (len(cap["niches"]), len(flat)), pos, False
     msg, near = assoc_oracle(F, refs, best, intercepts, cap["niches"], cap["dist"])
     if msg:
         return ("association (normalised space rebuilt from -wvalues): " +
-                msg.replace("individual", "flattened-front position")), pos, near, mem2
+                msg.replace("individual", "flattened-front position")), pos, near
     # (b) niche balance of the returned selection w.r.t. that (now validated) association
     niche_of = {p: int(cap["niches"][t]) for t, p in enumerate(flat)}
     counts = {}
@@ -376,7 +409,7 @@ def nsga3_call_oracle(pop, wv, sel, k, cap, refs, mem, flat, F):
         counts[niche_of[p]] = counts.get(niche_of[p], 0) + 1
     last = [q for q in range(len(pop)) if rank[q] == worst_sel]
     msg = balance_oracle(niche_of, counts, last, selset)
-    return msg, pos, near, mem2
+    return msg, pos, near
 
 
 # ----------------------------------------------------------------------------------------------
@@ -387,8 +420,10 @@ def ref_points(M, p, scaling):
     return tools.uniform_reference_points(M, p, None if scaling is None else float(Fr(scaling)))
 
 
-def nsga3_lines(pop, cap, k, sel_pos, near, memory=None, norm=None):
-    """protocol lines + expected answers for one captured selNSGA3 call."""
+def nsga3_lines(pop, cap, k, sel_pos, near, memory, F, Fid, imem, indep):
+    """protocol lines + expected answers for one captured selNSGA3 call.  F / Fid: the harness-built
+    minimised objective matrix in flattened-front order / in input order; imem: the harness's copy of the
+    memory before the call; indep: the harness's own normalisation (its solve answer feeds the model)."""
     lines, expect = [], []
     fronts = [positions(pop, fr) for fr in cap["fronts"]]
     nref = len(cap["refs"])
@@ -397,30 +432,33 @@ def nsga3_lines(pop, cap, k, sel_pos, near, memory=None, norm=None):
     expect.append(ilist(sel_pos))
     # niching on its own, with the in-place updated counts
     L = len(cap["n_individuals"])
-    lines.append("C07 niching %d %d %d %s %s %s %s" % (L, max(cap["n_k"], 0), nref, ilist(cap["n_niches"]),
-                                                     flist(cap["n_dist"]), ilist(cap["n_counts0"]), tape_tok(cap["draws"])))
-    lastpos = positions(cap["n_individuals"], cap["n_sel"])
-    expect.append("%s %s" % (ilist(lastpos), ilist(cap["n_counts1"])))
-    # normalisation + association by the model's own chain, from the harness-built matrix, the harness's
-    # copy of the memory and the answer of numpy.linalg.solve (the model's `solve` parameter)
-    F, imem, impl = norm
-    sol = cap.get("solve")
-    if sol is not None and numpy.all(numpy.isfinite(F)):
+    if all(int(c) >= 0 for c in cap["n_counts0"]) and all(int(c) >= 0 for c in cap["n_counts1"]):
+        lines.append("C07 niching %d %d %d %s %s %s %s" % (L, max(cap["n_k"], 0), nref, ilist(cap["n_niches"]),
+                                                         flist(cap["n_dist"]), ilist(cap["n_counts0"]), tape_tok(cap["draws"])))
+        lastpos = positions(cap["n_individuals"], cap["n_sel"])
+        expect.append("%s %s" % (ilist(lastpos), ilist(cap["n_counts1"])))
+    # normalisation + association + selection by the model's own chain, from the harness-built matrix, the
+    # harness's copy of the memory and the HARNESS's own answer of numpy.linalg.solve (the model's `solve`)
+    sol = indep[3]
+    if numpy.all(numpy.isfinite(F)):
         mtoks = ("none", "none", "none") if imem is None else (
             flist(imem["best"]), flist(imem["worst"]), "none" if imem["extreme"] is None else flist2(imem["extreme"]))
         stok = "sing" if isinstance(sol, str) else flist(sol)
         lines.append("C07 norm %s %s %s %s %s" % ((flist2(F),) + mtoks + (stok,)))
-        expect.append("%s %s %s %s" % (flist(numpy.array(impl.best_point).reshape(-1)),
-                                       flist(numpy.array(impl.worst_point).reshape(-1)),
-                                       flist2(impl.extreme_points), flist(numpy.array(cap["intercepts"]).reshape(-1))))
+        expect.append("%s %s %s %s" % (flist(numpy.array(cap["best"]).reshape(-1)), flist(cap["worst"]),
+                                       flist2(cap["extreme"]), flist(numpy.array(cap["intercepts"]).reshape(-1))))
         if numpy.all(numpy.isfinite(cap["dist"])):
             op = "nassocd" if near else "nassoc"
             lines.append("C07 %s %s %s %s %s %s %s" % ((op, flist2(F), flist2(cap["refs"])) + mtoks + (stok,)))
             expect.append(flist(cap["dist"]) if near else "%s %s" % (ilist(cap["niches"]), flist(cap["dist"])))
+            if not near:
+                lines.append("C07 nsga3f %s %d %s %s %s %s %s %s %s" % ((ilist2(fronts), k, flist2(Fid), flist2(cap["refs"]))
+                                                                        + mtoks + (stok, tape_tok(cap["draws"]))))
+                expect.append(ilist(sel_pos))
     if memory is not None:
         b0, w0, mem = memory
         lines.append("C07 mem %s %s %s" % (flist2(cap["fitnesses"]), flist(b0), flist(w0)))
-        expect.append("%s %s" % (flist(mem.best_point.reshape(-1)), flist(mem.worst_point.reshape(-1))))
+        expect.append("%s %s" % (flist(numpy.array(mem.best_point).reshape(-1)), flist(numpy.array(mem.worst_point).reshape(-1))))
     return lines, expect
 
 
@@ -496,15 +534,17 @@ def eval_spea2(d):
 
 
 def eval_nsga3(d):
-    w, k, M = d["w"], d["kk"], len(d["w"])
+    w, M = d["w"], len(d["w"])
     refs = ref_points(M, d["p"], d.get("scaling"))
-    pops = d["pops"] if d["k"] == "nsga3mem" else [d["vals"]]
-    ks = d["kk"] if d["k"] == "nsga3mem" else [d["kk"]]
-    selector = emo.selNSGA3WithMemory(refs, d["nd"]) if d["k"] == "nsga3mem" else None
+    mem_mode = d["k"] == "nsga3mem"
+    pops = d["pops"] if mem_mode else [d["vals"]]
+    ks = d["kk"] if mem_mode else [d["kk"]]
+    call = d.get("call", "kw")
+    selector = emo.selNSGA3WithMemory(refs, d["nd"]) if mem_mode else None
     lines, expect, msg = [], [], None
     rng = _random.Random(d.get("seed", 0))
-    # the harness's own copy of the memory (selNSGA3WithMemory.__init__: +inf / -inf / None)
     branch = None
+    # the harness's own copy of the memory (selNSGA3WithMemory.__init__: +inf / -inf / None)
     imem = None if selector is None else {"best": numpy.full(M, numpy.inf), "worst": numpy.full(M, -numpy.inf),
                                           "extreme": None}
     for vals, k in zip(pops, ks):
@@ -515,38 +555,83 @@ def eval_nsga3(d):
                 b0 = numpy.array(selector.best_point).reshape(-1)
                 w0 = numpy.array(selector.worst_point).reshape(-1)
                 sel = selector(pop, k)
-                impl = emo.NSGA3Memory(selector.best_point, selector.worst_point, selector.extreme_points)
-                memory = (b0, w0, impl)
+                memory = (b0, w0, emo.NSGA3Memory(selector.best_point, selector.worst_point, selector.extreme_points))
+            elif call == "plain":
+                sel = tools.selNSGA3(pop, k, refs)                       # the documented plain form
+                memory = None
+            elif call == "nd":
+                sel = tools.selNSGA3(pop, k, refs, d["nd"])
+                memory = None
             else:
-                sel, impl = tools.selNSGA3(pop, k, refs, nd=d["nd"], return_memory=True)
+                sel, _mem = tools.selNSGA3(pop, k, refs, nd=d["nd"], return_memory=True)
                 memory = None
         cap = cp.calls[-1]
         cap["draws"] = sh.draws
         flat, F = min_matrix(pop, wv, cap)
-        imem0 = imem
-        sol = cap.get("solve")
+        Fid = numpy.array([[-x for x in t] for t in wv], dtype=float)
+        indep = independent_normalisation(F, imem)
         if branch is None:
-            if isinstance(sol, str):
-                branch = "sing"
-            elif sol is not None and numpy.all(sol != 0) and numpy.array_equal(1 / sol, numpy.array(cap["intercepts"]).reshape(-1)):
-                branch = "hyperplane"
-            else:
-                branch = "frontworst"
-        m, pos, near, imem = nsga3_call_oracle(pop, wv, sel, k, cap, refs, imem, flat, F)
+            branch = indep[4]
+        m, pos, near = nsga3_call_oracle(pop, wv, sel, k, cap, refs, flat, F, indep)
         if m and msg is None:
             msg = m
         if any(p is None for p in pos):
             break
-        if m is None and selector is None and not near:
+        if m is None and selector is None and not near and len(pop) <= 40:
             m = translation_oracle(d, w, vals, k, refs, cap, F, flat)
             if m and msg is None:
                 msg = m
-        l, e = nsga3_lines(pop, cap, k, pos, near, memory, (F, imem0, impl))
+        l, e = nsga3_lines(pop, cap, k, pos, near, memory, F, Fid, imem, indep)
         lines += l
         expect += e
+        imem = indep[2] if imem is not None else None
     n = len(pops[0])
-    tag = "%s/%s/%s/m=%d%s/%s" % (d["k"], d.get("shape", "?"), d["nd"], M, "/scaled" if d.get("scaling") else "", branch)
+    tag = "%s/%s/%s/m=%d%s/%s/%s" % (d["k"], d.get("shape", "?"), d["nd"], M, "/scaled" if d.get("scaling") else "",
+                                   branch, call if not mem_mode else "class")
     return Case(d, lines, expect, msg, tag=tag, nontrivial=(n > 1 and ks[0] < n), tol=1e-9)
+
+
+def eval_icpt(d):
+    """find_intercepts on its own (correspondence only: the statement does not speak about it)."""
+    ext = numpy.array(d["extreme"], dtype=float)
+    best = numpy.array(d["best"], dtype=float)
+    worst = numpy.array(d["worst"], dtype=float)
+    fw = numpy.array(d["fw"], dtype=float)
+    # correspondence of the logic AROUND the solve: the solve answer is the implementation's own (LAPACK is
+    # not bit-reproducible on the ill-conditioned systems used here); the nsga3 streams use the harness's
+    # own solve instead
+    seen = {}
+    real_solve = numpy.linalg.solve
+
+    def solve(A, b):
+        try:
+            x = real_solve(A, b)
+        except numpy.linalg.LinAlgError:
+            seen["x"] = "sing"
+            raise
+        if d.get("perturb"):
+            x = x * (1.0 + d["perturb"])        # a solver that misses its contract A.x = b
+        seen["x"] = numpy.array(x)
+        return x
+    numpy.linalg.solve = solve
+    try:
+        got = numpy.array(emo.find_intercepts(ext.copy(), best.copy(), worst.copy(), fw.copy()), dtype=float).reshape(-1)
+    finally:
+        numpy.linalg.solve = real_solve
+    sol = seen.get("x", "sing")
+    if isinstance(sol, str):
+        branch = "sing"
+    elif numpy.any(sol == 0):
+        branch = "frontworst/zero"
+    elif not numpy.allclose(numpy.dot(ext - best, sol), numpy.ones(len(best))):
+        branch = "frontworst/residual"
+    elif numpy.any(1 / sol <= 1e-6) or numpy.any(1 / sol + best > worst):
+        branch = "frontworst/guard"
+    else:
+        branch = "hyperplane"
+    stok = "sing" if isinstance(sol, str) else flist(sol)
+    line = "C07 icpt %s %s %s %s %s" % (flist2(ext), flist(best), flist(worst), flist(fw), stok)
+    return Case(d, [line], [flist(got)], None, tag="icpt/%s/%s" % (d.get("shape", "?"), branch), tol=1e-9)
 
 
 def eval_niching(d):
@@ -628,6 +713,8 @@ def evaluate(d):
         return eval_nsga3(d)
     if k == "niching":
         return eval_niching(d)
+    if k == "icpt":
+        return eval_icpt(d)
     if k == "assoc":
         return eval_assoc(d)
     if k == "refs":
@@ -738,7 +825,7 @@ def asf_vals(rng, n, w):
     return [[-x / float(Fr(ww)) for x, ww in zip(pt, w)] for pt in pts]
 
 
-def gen_nsga3(rng, nmax=14, mem=False):
+def gen_nsga3(rng, nmax=14, mem=False, call="kw"):
     # "prefix": >= 3 objectives, log-time sort, individuals that agree on the first objectives and differ
     # only in later ones (the one-element base case of sortNDHelperB)
     prefix = rng.random() < 0.12
@@ -750,7 +837,7 @@ def gen_nsga3(rng, nmax=14, mem=False):
         if all(x.startswith("-") for x in w):
             w[rng.randrange(m)] = rng.choice(["1", "2", "1/2"])
     p = rng.randint(1, 8 if (m <= 3 or rng.random() < 0.08) else (5 if m == 4 else 4))
-    scaling = rng.choice([None, None, "1/2"])
+    scaling = rng.choice([None, None, "1/2", "1/4", "3/4"])
     nd = "log" if prefix else rng.choice(["log", "standard"])
     shape = rng.choice(SHAPES)
     integer = rng.random() < 0.6
@@ -795,8 +882,73 @@ def gen_nsga3(rng, nmax=14, mem=False):
         d.update(k="nsga3mem", pops=[c[0] for c in calls], kk=[c[1] for c in calls])
     else:
         vals, k = one()
-        d.update(k="nsga3", vals=vals, kk=k)
+        d.update(k="nsga3", vals=vals, kk=k, call=call)
+        if call == "plain":
+            d["nd"] = "log"              # the documented default
     return d
+
+
+def gen_big(rng, variant):
+    """n = 180..220 individuals in many small fronts: every front holds `dup` copies of a point of ray a and
+    one point of ray b (minimisation form a_i = (1+i)(1,2), b_i = (1+i)(2,1)), so that after the fully
+    selected fronts one niche counts more than 127 members while the other still has a candidate."""
+    dup = 2 + variant % 2
+    nfr = (134 // dup) + 1 + rng.randint(0, 3)
+    heavy_first = variant % 4 < 2
+    w = [["-1", "-1"], ["-1", "2"], ["1/2", "-1"], ["1", "1"]][variant % 4]
+    pts = []
+    for i in range(nfr):
+        a = [(1 + i) * 1.0, (1 + i) * 2.0]
+        b = [(1 + i) * 2.0, (1 + i) * 1.0]
+        if not heavy_first:
+            a, b = b, a
+        layer = [list(a) for _ in range(dup)] + [list(b)]
+        rng.shuffle(layer)
+        pts += layer
+    order = list(range(len(pts)))
+    rng.shuffle(order)
+    pts = [pts[i] for i in order]
+    vals = [[float(-Fr(x) / Fr(ww)) for x, ww in zip(pt, w)] for pt in pts]
+    k = (dup + 1) * (nfr - 1) + rng.randint(1, dup)
+    return {"k": "nsga3", "w": w, "p": rng.choice([1, 2, 4]), "scaling": None, "nd": rng.choice(["log", "standard"]),
+            "shape": "big", "seed": rng.randrange(1 << 30), "vals": vals, "kk": k, "call": "kw"}
+
+
+def gen_icpt(rng, shape):
+    M = 2 if shape in ("ill", "ill2") else rng.randint(2, 4)
+    best = [float(rng.randint(-2, 3)) for _ in range(M)]
+    if shape == "ok":
+        A = [[float(rng.randint(3, 6)) if i == j else float(rng.randint(0, 1)) for j in range(M)] for i in range(M)]
+    elif shape == "sing":
+        row = [float(rng.randint(1, 4)) for _ in range(M)]
+        A = [[x * (i + 1) for x in row] for i in range(M)]
+    elif shape == "zero":
+        A = [[1.0 if (j == 0 or j == i) else 0.0 for j in range(M)] for i in range(M)]     # x = (1, 0, ..., 0)
+    elif shape == "tiny":
+        A = [[rng.choice([1e-7, 5e-7, 2e-6]) if i == j else 0.0 for j in range(M)] for i in range(M)]
+    elif shape == "ill":
+        e = 2.0 ** -rng.choice([50, 51, 49, 44])
+        s1 = float(rng.randint(1, 3))
+        A = [[s1, s1], [2 * s1, 2 * s1 * (1 + e)]]          # nearly parallel, inconsistent right-hand side
+    elif shape == "ill2":
+        e = 2.0 ** -rng.choice([40, 45, 50])
+        A = [[1.0 + e, 1.0], [3.0, 3.0 + 7 * e]]
+    elif shape == "resid":
+        # a well-conditioned system whose `solve` answer is perturbed by the harness (see eval_icpt): the
+        # contract A.x = b is missed by a relative 3e-5 / 1e-3 (rejected by allclose) or 3e-6 (accepted)
+        A = [[float(rng.randint(3, 6)) if i == j else float(rng.randint(0, 1)) for j in range(M)] for i in range(M)]
+    else:   # "exceeds": the hyperplane leaves the box of the worst point
+        A = [[float(rng.randint(3, 6)) if i == j else 0.0 for j in range(M)] for i in range(M)]
+    extreme = [[a + b for a, b in zip(row, best)] for row in A]
+    hi = [max(r[j] for r in extreme) for j in range(M)]
+    worst = [h + (0.0 if shape == "exceeds" and rng.random() < 0.7 else rng.choice([0.0, 1.0, 50.0])) - (1.0 if shape == "exceeds" else 0.0)
+             for h in hi]
+    fw = [h + rng.choice([0.0, 0.5]) for h in hi]
+    if shape == "resid":
+        worst = [h + 50.0 for h in hi]
+        return {"k": "icpt", "shape": shape, "extreme": extreme, "best": best, "worst": worst, "fw": fw,
+                "perturb": rng.choice([3e-5, -3e-5, 1e-3, 3e-6])}
+    return {"k": "icpt", "shape": shape, "extreme": extreme, "best": best, "worst": worst, "fw": fw}
 
 
 def gen_niching(rng):
@@ -825,7 +977,7 @@ def gen_niching(rng):
 def gen_assoc(rng):
     M = rng.randint(2, 6)
     p = rng.randint(1, 8 if M <= 3 else (4 if M <= 5 else 3))
-    scaling = rng.choice([None, "1/2"])
+    scaling = rng.choice([None, "1/2", "1/3", "3/4"])
     n = rng.randint(1, 8)
     kind = rng.choice(["unit", "shifted", "onaxis", "int"])
     if kind == "unit":
@@ -860,12 +1012,19 @@ def gen_qsel(rng):
 
 def generate(tier, rng, mult):
     thorough = tier == "thorough"
-    # reference points: the whole stated range
+    # reference points: the whole stated range, scalings away from the fixed point 1/2
     for M in range(1, 7):
         for p in range(1, 9):
-            for sc in (None, "1/2") + (("1/4", "1") if thorough else ()):
-                if math.comb(M + p - 1, p) <= (1300 if thorough else 500):
+            for sc in (None, "1/2", "1/4", "3/4", "1/3") + (("1", "1/8") if thorough else ()):
+                if math.comb(M + p - 1, p) <= (1300 if thorough else (500 if sc in (None, "1/2") else 130)):
                     yield {"k": "refs", "M": M, "p": p, "scaling": sc}
+    # large populations in many small fronts (niche counts beyond 127)
+    for v in range(8 if thorough else 4):
+        yield gen_big(rng, v)
+    # find_intercepts on its own: every branch incl. the failing allclose test
+    for shape in ("ok", "sing", "zero", "tiny", "ill", "ill2", "resid", "exceeds"):
+        for _ in range(40 if thorough else 8):
+            yield gen_icpt(rng, shape)
     # SPEA2 exhaustive tiny populations
     for m in (1, 2):
         for n in range(1, 5 if thorough else 4):
@@ -874,16 +1033,16 @@ def generate(tier, rng, mult):
                     for w in (["-1"] * m, ["1", "-1"][:m]):
                         yield {"k": "spea2", "w": w, "vals": [list(v) for v in vals], "kk": k, "shape": "tiny", "seed": 1}
     base_n = (50000 if thorough else 1500) * mult
-    for _ in range(base_n):
+    for t in range(base_n):
+        yield gen_nsga3(rng, mem=False, call=("kw", "plain", "nd")[t % 3])
+        if t % 4 == 0:
+            yield gen_nsga3(rng, mem=True)
         yield gen_spea2(rng)
         yield gen_niching(rng)
-        if rng.random() < 0.5:
+        if t % 2 == 0:
             yield gen_assoc(rng)
-        if rng.random() < 0.3:
+        if t % 3 == 0:
             yield gen_qsel(rng)
-        yield gen_nsga3(rng, mem=False)
-        if rng.random() < 0.25:
-            yield gen_nsga3(rng, mem=True)
 
 
 # ----------------------------------------------------------------------------------------------
